@@ -351,35 +351,36 @@ Proof.
     pose proof (qnat_nonneg (length l)). nra.
 Qed.
 
-(* what the code guarantees: |f_i(x) - center| <= amplitude * input_dim *)
+(* the declared bound: |f_i(x) - center| <= amplitude, for every input_dim *)
 Lemma rf_component_bound : forall sinv center amplitude (num_terms input_dim : nat) rows xs,
-  sin_ok sinv -> 0 <= amplitude -> (0 < num_terms)%nat ->
+  sin_ok sinv -> 0 <= amplitude -> (0 < num_terms)%nat -> (0 < input_dim)%nat ->
   length rows = num_terms ->
   Forall (fun ts => length ts = input_dim /\ Forall term_ok ts) rows ->
-  cnormsq (csub (rf_component sinv center amplitude (Z.of_nat num_terms) rows xs) center)
-  <= (amplitude * inject_Z (Z.of_nat input_dim)) * (amplitude * inject_Z (Z.of_nat input_dim)).
+  cnormsq (csub (rf_component sinv input_dim center amplitude (Z.of_nat num_terms) rows xs) center)
+  <= amplitude * amplitude.
 Proof.
-  intros sinv center amplitude num_terms input_dim rows xs Hs Ha Hn Hl Hr.
+  intros sinv center amplitude num_terms input_dim rows xs Hs Ha Hn Hi Hl Hr.
   unfold rf_component. cbv zeta.
   set (S := csum_list (map (fun ts => rf_inner sinv ts xs) rows)).
   set (N := inject_Z (Z.of_nat num_terms)). set (K := inject_Z (Z.of_nat input_dim)).
   assert (HN : 0 < N). { unfold N. rewrite <- (Zlt_Qlt 0). lia. }
-  assert (HK : 0 <= K) by apply qnat_nonneg.
+  assert (HK : 0 < K). { unfold K. rewrite <- (Zlt_Qlt 0). lia. }
+  assert (HNK : 0 < N * K) by nra.
   assert (HS : cnormsq S <= (N * K) * (N * K)).
   { unfold S, N. rewrite <- Hl. rewrite <- (map_length (fun ts => rf_inner sinv ts xs) rows).
-    apply csum_list_bound; [exact HK|].
+    apply csum_list_bound; [lra|].
     apply Forall_forall. intros z Hz. apply in_map_iff in Hz. destruct Hz as (ts & E & Hin). subst z.
     rewrite Forall_forall in Hr. destruct (Hr ts Hin) as [L T]. unfold K. rewrite <- L.
     apply rf_inner_bound; assumption. }
-  assert (E : ceq (csub (cadd (cscale (amplitude / N) S) center) center) (cscale (amplitude / N) S)).
-  { generalize (cscale (amplitude / N) S). intro z. cdestruct. split; ring. }
+  assert (E : ceq (csub (cadd (cscale (amplitude / (N * K)) S) center) center) (cscale (amplitude / (N * K)) S)).
+  { generalize (cscale (amplitude / (N * K)) S). intro z. cdestruct. split; ring. }
   rewrite E, cnormsq_scale.
-  assert (HA : 0 <= amplitude / N) by (apply div_nonneg; lra).
-  assert (E2 : (amplitude / N) * N == amplitude) by (field; lra).
-  set (a := amplitude / N) in *.
+  assert (HA : 0 <= amplitude / (N * K)) by (apply div_nonneg; lra).
+  assert (E2 : (amplitude / (N * K)) * (N * K) == amplitude) by (field; lra).
+  set (a := amplitude / (N * K)) in *.
   assert (H1 : a * a * cnormsq S <= a * a * ((N * K) * (N * K))).
   { assert (H0 : 0 <= a * a) by nra. revert H0 HS. generalize (a * a) (cnormsq S) ((N * K) * (N * K)). intros; nra. }
-  assert (H2 : a * a * ((N * K) * (N * K)) == amplitude * K * (amplitude * K)) by (rewrite <- E2; ring).
+  assert (H2 : a * a * ((N * K) * (N * K)) == amplitude * amplitude) by (rewrite <- E2; ring).
   lra.
 Qed.
 
@@ -394,7 +395,7 @@ Qed.
 
 Lemma rf_eval_some : forall sinv input_dim center amplitude num_terms f xs ys,
   rf_eval sinv input_dim center amplitude num_terms f xs = Some ys ->
-  length xs = input_dim /\ ys = map (fun rows => rf_component sinv center amplitude num_terms rows xs) f.
+  length xs = input_dim /\ ys = map (fun rows => rf_component sinv input_dim center amplitude num_terms rows xs) f.
 Proof.
   intros until ys. unfold rf_eval. destruct (Nat.eqb (length xs) input_dim) eqn:E; [|discriminate].
   apply Nat.eqb_eq in E. intro H. inversion H. auto.
@@ -420,9 +421,9 @@ Proof.
   apply creal_add; auto.
 Qed.
 
-Lemma rf_component_real : forall sinv center amplitude num_terms rows xs, creal center ->
+Lemma rf_component_real : forall sinv input_dim center amplitude num_terms rows xs, creal center ->
   Forall (Forall (fun t => creal (t_a t))) rows ->
-  creal (rf_component sinv center amplitude num_terms rows xs).
+  creal (rf_component sinv input_dim center amplitude num_terms rows xs).
 Proof.
   intros. unfold rf_component. cbv zeta. apply creal_add; [|assumption]. apply creal_scale.
   apply csum_list_real. apply Forall_forall. intros z Hz. apply in_map_iff in Hz.
@@ -446,17 +447,16 @@ Qed.
 
 (* the whole statement for one drawn function and one evaluation point *)
 Lemma rf_sample_sound : forall expi sinv cplx (input_dim output_dim num_terms : nat) center amplitude raw xs,
-  expi_ok expi -> sin_ok sinv -> 0 <= amplitude -> (0 < num_terms)%nat ->
+  expi_ok expi -> sin_ok sinv -> 0 <= amplitude -> (0 < num_terms)%nat -> (0 < input_dim)%nat ->
   rf_shape_ok output_dim num_terms input_dim raw = true -> raw3_ok raw ->
   let f := rf_draw expi cplx raw in
   (rf_eval sinv input_dim center amplitude (Z.of_nat num_terms) f xs = None <-> length xs <> input_dim) /\
   forall ys, rf_eval sinv input_dim center amplitude (Z.of_nat num_terms) f xs = Some ys ->
     length ys = output_dim /\
-    Forall (fun y => cnormsq (csub y center)
-                     <= (amplitude * inject_Z (Z.of_nat input_dim)) * (amplitude * inject_Z (Z.of_nat input_dim))) ys /\
+    Forall (fun y => cnormsq (csub y center) <= amplitude * amplitude) ys /\
     (cplx = false -> creal center -> Forall creal ys).
 Proof.
-  intros expi sinv cplx input_dim output_dim num_terms center amplitude raw xs He Hs Ha Hn Hshape Hraw f.
+  intros expi sinv cplx input_dim output_dim num_terms center amplitude raw xs He Hs Ha Hn Hi Hshape Hraw f.
   split; [apply rf_eval_arity|].
   intros ys Hys. apply rf_eval_some in Hys. destruct Hys as [Hlen ->].
   apply rf_shape_ok_spec in Hshape. destruct Hshape as [Ho Hrows].
@@ -479,24 +479,9 @@ Proof.
     apply Forall_forall. intros t Ht. apply in_map_iff in Ht. destruct Ht as (r & <- & Hr). apply rf_coeff_real.
 Qed.
 
-(* unary functions: values stay within center +/- amplitude *)
-Lemma rf_unary_bound : forall expi sinv cplx (output_dim num_terms : nat) center amplitude raw xs ys,
-  expi_ok expi -> sin_ok sinv -> 0 <= amplitude -> (0 < num_terms)%nat ->
-  rf_shape_ok output_dim num_terms 1 raw = true -> raw3_ok raw ->
-  rf_eval sinv 1 center amplitude (Z.of_nat num_terms) (rf_draw expi cplx raw) xs = Some ys ->
-  Forall (fun y => cnormsq (csub y center) <= amplitude * amplitude) ys.
-Proof.
-  intros expi sinv cplx output_dim num_terms center amplitude raw xs ys He Hs Ha Hn Hshape Hraw Hys.
-  destruct (rf_sample_sound expi sinv cplx 1 output_dim num_terms center amplitude raw xs He Hs Ha Hn Hshape Hraw)
-    as [_ H]. destruct (H ys Hys) as (_ & B & _).
-  eapply Forall_impl; [|exact B]. intros y Hy. cbv beta in Hy.
-  change (inject_Z (Z.of_nat 1)) with 1 in Hy.
-  setoid_replace (amplitude * amplitude) with (amplitude * 1 * (amplitude * 1)) by ring. exact Hy.
-Qed.
-
-(* the full statement (values within center +/- amplitude for every input_dim) FAILS for input_dim = 2:
-   raw draws A = 0.5 (amplitude 0.75), B = 0.5 (frequency 0), C = 0.25 (phase np.pi/2); np.sin(np.pi/2) = 1.0
-   is the only oracle answer consulted; num_terms = 1, center = 0, amplitude = 1: f(x1, x2) = 1.5 *)
+(* regression: the draws that used to leave center +/- amplitude before the scaling was repaired
+   (input_dim = 2, one term, amplitude 1, center 0, raw draws (A, B, C) = (0.5, 0.5, 0.25) twice, the only oracle
+   answer consulted being np.sin(np.pi/2) = 1.0) now give f(x1, x2) = 3/4 *)
 Definition rf_witness_sin (t : Q) : Q := if Qeq_bool t (pi_f / 2) then 1 else 0.
 Definition rf_witness_raw : list (list (list rf_raw)) :=
   [[[mkRaw (1#2) 0 (1#2) (1#4); mkRaw (1#2) 0 (1#2) (1#4)]]].
@@ -509,15 +494,13 @@ Proof.
   unfold raw3_ok, rf_witness_raw. repeat constructor; simpl; lra.
 Qed.
 
-Lemma rf_bound_refuted :
-  exists expi sinv cplx (input_dim output_dim num_terms : nat) center amplitude raw xs ys,
-    expi_ok expi /\ sin_ok sinv /\ 0 <= amplitude /\ (0 < num_terms)%nat /\
-    rf_shape_ok output_dim num_terms input_dim raw = true /\ raw3_ok raw /\
-    rf_eval sinv input_dim center amplitude (Z.of_nat num_terms) (rf_draw expi cplx raw) xs = Some ys /\
-    ~ Forall (fun y => cnormsq (csub y center) <= amplitude * amplitude) ys.
+Lemma rf_former_witness :
+  sin_ok rf_witness_sin /\ raw3_ok rf_witness_raw /\ rf_shape_ok 1 1 2 rf_witness_raw = true /\
+  match rf_eval rf_witness_sin 2 c0 1 1 (rf_draw (fun _ => c1) false rf_witness_raw) [3; -7] with
+  | Some [y] => ceq y (3 # 4, 0)
+  | _ => False
+  end.
 Proof.
-  exists (fun _ => c1), rf_witness_sin, false, 2%nat, 1%nat, 1%nat, c0, 1, rf_witness_raw, [3; -7].
-  eexists. split; [intro; reflexivity|]. split; [exact rf_witness_sin_ok|]. split; [lra|]. split; [lia|].
-  split; [reflexivity|]. split; [exact rf_witness_raw_ok|]. split; [reflexivity|].
-  intro H. inversion H as [|? ? H1 _]; subst. vm_compute in H1. apply H1. reflexivity.
+  split; [exact rf_witness_sin_ok|]. split; [exact rf_witness_raw_ok|]. split; [reflexivity|].
+  vm_compute. split; reflexivity.
 Qed.
